@@ -16,6 +16,7 @@ def check(ctx):
         "properties and events are recorded as new queue entries under next_parent_id (never appended to an earlier entry); R6 a scope refused at the per-thread scope limit must leave a trace in the "
         "stack (known finding K4: it does not, so operations under the refused local parent act on the enclosing scope); R7 the scope "
         "limit is the only reason to refuse a scope: every other path of register_span_line pushes the new span line. R8 the scope stack is only accessed from its top; R9 scope state written on open is written on release, and the local operations reach no thread-local besides the scope stack (and the ones of the confirmed tree).")
+    ctx.explanation += (' Round 5: R3 also -- SpanLine::finish_span reaches SpanQueue::finish_span for every handle of its own epoch (accepted reasons to skip: foreign epoch, never-recording scope).')
     ctx.not_decided = ("the frame condition for arbitrary nesting depth (it follows from the stack discipline R2 pins down, "
                        "but equality of 'context before' and 'context after' is a state property).")
     facts = ctx.facts("E")
